@@ -1263,6 +1263,7 @@ func c11TermUnderFlagD(tm *Termer, t *Term, flag *ssa.Parameter, val bool, depth
 //   - any other edge gives the branch outcomes known when control leaves its source block towards the phi (those that
 //     dominate the source block and the outcome of its own branch), plus - for a non-constant edge - the edge value
 //     itself having the outcome's value.
+//
 // Each alternative is a conjunction of ordinary branch outcomes about SSA values that are not recomputed between the
 // edge and the end of the phi's block (the branch is the last instruction of the very block the phi heads - only that
 // form is expanded). c11GuardCases returns the alternatives (each expanded in turn, for chains `a && b && c`); a fact
